@@ -10,9 +10,15 @@ def run(tier, seed):
     rep.notes.append('Shunting-yard fragment proved over ABSTRACT operand/prefix/infix/postfix children whose values carry SYMBOLIC (precedence, '
                      'associativity) tags (one run covers all tables): stack safety (every pop / index / unpack), position protocol (the expression ends right '
                      'after the last operand or postfix operator parsed: a dangling operator is left unconsumed, a second non-associative operator ends the '
-                     'expression), exactly one tree remains, status and flags. Tagging by OperatorTable.create decided case-complete; Longest (longest match '
-                     'among rows) and Apply (tagging) by their C01/C05 contracts. The SHAPE of the tree (precedence / associativity / fringe) is a BOUNDED '
-                     'stand-in: brute-force reference of the statement vs the real parser on all token sequences up to a length.')
+                     'expression), exactly one tree remains, status and flags - and the SHAPE of the tree: a ghost record per operand-stack slot (precedence of '
+                     'the open-left / open-right operator, first and one-past-last consumed occurrence) is maintained on the real pops / appends / Infix, Prefix, '
+                     'Postfix constructions; EVERY construction carries the local clauses of the statement as obligations (operands are the adjacent occurrences '
+                     'in input order; the left operand binds tighter, or equally in a left row; the right operand binds tighter, or equally in a right row; '
+                     'operands of prefix / postfix operators bind at least as tight; the operator stored is the one popped); stack invariants W0-W5 / K1-K8 '
+                     'carry them through the six loops; posts: the tree is well-shaped, spans exactly the committed occurrences, and the expression ends only '
+                     'because no operand / no infix operator follows or a non-associative operator would be chained (P-stop). Tagging by OperatorTable.create '
+                     'decided case-complete (a row has one kind: rowkind); Longest (longest match among rows) and Apply (tagging) by their C01/C05 contracts. '
+                     'A brute-force reference of the statement vs the real parser on all token sequences up to a length runs in addition (bounded, an independent cross-check).')
     run_fragments(rep, optable.OPTABLE + [core.LongestC(), bind.ApplyC(), core.ChoiceC()], tier,
                   only_cfg=lambda c, cfg: len(cfg.get('flags', [])) <= 3)
     optable.CreateC().obligations(rep, tier)
@@ -26,7 +32,11 @@ def run(tier, seed):
     if bad:
         rep.add('bounded:tree-shape', 'the generated parser returns the well-shaped tree over the longest prefix that has one', 'bounded', False,
                 detail={'violations': bad[:3]}, replay={'reproduced': True, 'violated': bad[:3]})
-    rep.assumptions.append('BOUNDED (not counted as proved): the tree-shape / in-order-fringe / longest-run clauses are compared with a brute-force reference on all '
+    rep.assumptions.append('well-shapedness of the WHOLE tree follows from the per-construction obligations by induction on the tree (every node ever built satisfied its local '
+                           'clause w.r.t. well-shaped operands); the in-order reading of a tree spanning occurrences [lo, hi) being exactly those occurrences likewise (paper, two lines each)')
+    rep.assumptions.append('uniqueness of the well-shaped tree and optimality of the greedy run ("longest run that fits") are NOT proved: P-stop pins the three reasons for which the real '
+                           'loop ends; BOUNDED cross-check (not counted as proved): brute-force reference of the statement on all '
                            f'token sequences up to length {maxlen} over 6 tables (shared prefix/infix spellings, non-associative rows, prefix looser/tighter than infix)')
+    rep.assumptions.append('rowkind: a row has ONE kind, so entries of equal precedence have equal kind and a postfix row shares its precedence with no prefix / infix row (OperatorTable.create, decided by CreateC)')
     rep.assumptions.append('child value typing: what OperatorTable.create builds (Apply(operators, tagger)) returns (row, kind, operator) triples resp. (row, operator) pairs - decided by CreateC + Apply contract')
     return rep.finish()
